@@ -245,6 +245,7 @@ type JournalEntry struct {
 	Method string   `json:"m"`
 	Args   []string `json:"a,omitempty"`
 	Err    string   `json:"e,omitempty"`
+	Fault  bool     `json:"f,omitempty"` // the error was injected by the fault plan
 }
 
 // TEPolicy is the token-exchange policy of the store (part of the abstract state).
@@ -344,6 +345,7 @@ type Store struct {
 	BornExpired bool          // new access tokens get an expiry in the past (JWT born expired)
 
 	ShareDeviceState bool // GetDeviceAuthorizatonState returns the stored object, not a copy (C20)
+	NotFoundAsOIDC   bool // an unknown client is reported as *oidc.Error (invalid_client) instead of a plain error
 
 	PromptNoneLoginRequired bool
 	Health_                 error
@@ -386,6 +388,9 @@ func (s *Store) enter(ctx context.Context, method string, args ...string) error 
 	if (s.FailAt != 0 && s.calls == s.FailAt) || (s.FailMethod != "" && s.FailMethod == method) {
 		if s.FailKind == "deadline" {
 			err = context.DeadlineExceeded
+		} else if s.FailKind == "dupcode" {
+			// the sentinel the storage contract names for a user code that is already in use
+			err = op.ErrDuplicateUserCode
 		} else if s.FailKind == "oidc" {
 			// a storage that answers every outage with one and the same *oidc.Error value
 			err = ErrInjectedOIDC
@@ -393,6 +398,7 @@ func (s *Store) enter(ctx context.Context, method string, args ...string) error 
 			err = ErrInjected
 		}
 		e.Err = err.Error()
+		e.Fault = true
 	}
 	s.Journal = append(s.Journal, e)
 	return err
@@ -725,6 +731,9 @@ func (s *Store) GetClientByClientID(ctx context.Context, id string) (op.Client, 
 	defer s.mu.Unlock()
 	c, ok := s.Clients[id]
 	if !ok {
+		if s.NotFoundAsOIDC {
+			return nil, oidc.ErrInvalidClient().WithDescription("client not found")
+		}
 		return nil, notFound{"client"}
 	}
 	return asClient(c), nil
